@@ -96,8 +96,8 @@ def run_harness(coll, driver, params, out, timeout=600):
             "coll": coll, "driver": driver, "params": params}
 
 
-JAVA_OPTS_TRACE = "-Xss1g -Xmx6g -XX:+UseParallelGC"
-JAVA_OPTS_MODEL = "-Xss256m -Xmx12g -XX:+UseParallelGC"
+JAVA_OPTS_TRACE = "-Xss1g -Xmx6g -XX:+UseParallelGC -XX:ParallelGCThreads=2"
+JAVA_OPTS_MODEL = "-Xss256m -Xmx12g -XX:+UseParallelGC -XX:ParallelGCThreads=4"
 
 NOISE = re.compile(r"^(Picked up|TLC2 Version|Running |Parsing file|Semantic processing|Starting\.\.\.|Implied-temporal|"
                    r"Computing initial|Computed \d|Finished computing|Progress\(|Finished in|Warning: Please|\(Use the|Linting of|"
@@ -169,9 +169,12 @@ def read_events(trace):
         return f.read().splitlines()
 
 
+SEG_STARTS = ('{"ev":"reset"', '{"ev":"load"', '{"ev":"new"')
+
+
 def segment_start(lines, l):
     """index (1-based) of the reset/load event that starts the segment containing event l"""
     i = min(l, len(lines))
-    while i > 1 and not (lines[i - 1].startswith('{"ev":"reset"') or lines[i - 1].startswith('{"ev":"load"')):
+    while i > 1 and not lines[i - 1].startswith(SEG_STARTS):
         i -= 1
     return i
